@@ -676,12 +676,24 @@ func (loader *Loader) resolveHeaderRef(doc *T, component *HeaderRef, documentPat
 		}
 		loader.visitRef(ref)
 		if isSingleRefElement(ref) {
-			var header Header
-			if documentPath, err = loader.loadSingleElementFromURI(ref, documentPath, &header); err != nil {
+			// the file holds the object itself or, one more link of the chain, a reference to it
+			var held HeaderRef
+			if documentPath, err = loader.loadSingleElementFromURI(ref, documentPath, &held); err != nil {
 				return err
 			}
-			component.Value = &header
-			component.setRefPath(documentPath)
+			if held.Ref != "" {
+				if err = loader.resolveHeaderRef(doc, &held, documentPath); err != nil {
+					return err
+				}
+				component.Value = held.Value
+				component.setRefPath(held.RefPath())
+			} else {
+				if held.Value == nil {
+					held.Value = &Header{}
+				}
+				component.Value = held.Value
+				component.setRefPath(documentPath)
+			}
 		} else {
 			var resolved HeaderRef
 			doc, componentPath, err := loader.resolveComponent(doc, ref, documentPath, &resolved)
@@ -758,12 +770,24 @@ func (loader *Loader) resolveParameterRef(doc *T, component *ParameterRef, docum
 		}
 		loader.visitRef(ref)
 		if isSingleRefElement(ref) {
-			var param Parameter
-			if documentPath, err = loader.loadSingleElementFromURI(ref, documentPath, &param); err != nil {
+			// the file holds the object itself or, one more link of the chain, a reference to it
+			var held ParameterRef
+			if documentPath, err = loader.loadSingleElementFromURI(ref, documentPath, &held); err != nil {
 				return err
 			}
-			component.Value = &param
-			component.setRefPath(documentPath)
+			if held.Ref != "" {
+				if err = loader.resolveParameterRef(doc, &held, documentPath); err != nil {
+					return err
+				}
+				component.Value = held.Value
+				component.setRefPath(held.RefPath())
+			} else {
+				if held.Value == nil {
+					held.Value = &Parameter{}
+				}
+				component.Value = held.Value
+				component.setRefPath(documentPath)
+			}
 		} else {
 			var resolved ParameterRef
 			doc, componentPath, err := loader.resolveComponent(doc, ref, documentPath, &resolved)
@@ -842,12 +866,24 @@ func (loader *Loader) resolveRequestBodyRef(doc *T, component *RequestBodyRef, d
 		}
 		loader.visitRef(ref)
 		if isSingleRefElement(ref) {
-			var requestBody RequestBody
-			if documentPath, err = loader.loadSingleElementFromURI(ref, documentPath, &requestBody); err != nil {
+			// the file holds the object itself or, one more link of the chain, a reference to it
+			var held RequestBodyRef
+			if documentPath, err = loader.loadSingleElementFromURI(ref, documentPath, &held); err != nil {
 				return err
 			}
-			component.Value = &requestBody
-			component.setRefPath(documentPath)
+			if held.Ref != "" {
+				if err = loader.resolveRequestBodyRef(doc, &held, documentPath); err != nil {
+					return err
+				}
+				component.Value = held.Value
+				component.setRefPath(held.RefPath())
+			} else {
+				if held.Value == nil {
+					held.Value = &RequestBody{}
+				}
+				component.Value = held.Value
+				component.setRefPath(documentPath)
+			}
 		} else {
 			var resolved RequestBodyRef
 			doc, componentPath, err := loader.resolveComponent(doc, ref, documentPath, &resolved)
@@ -925,12 +961,24 @@ func (loader *Loader) resolveResponseRef(doc *T, component *ResponseRef, documen
 		}
 		loader.visitRef(ref)
 		if isSingleRefElement(ref) {
-			var resp Response
-			if documentPath, err = loader.loadSingleElementFromURI(ref, documentPath, &resp); err != nil {
+			// the file holds the object itself or, one more link of the chain, a reference to it
+			var held ResponseRef
+			if documentPath, err = loader.loadSingleElementFromURI(ref, documentPath, &held); err != nil {
 				return err
 			}
-			component.Value = &resp
-			component.setRefPath(documentPath)
+			if held.Ref != "" {
+				if err = loader.resolveResponseRef(doc, &held, documentPath); err != nil {
+					return err
+				}
+				component.Value = held.Value
+				component.setRefPath(held.RefPath())
+			} else {
+				if held.Value == nil {
+					held.Value = &Response{}
+				}
+				component.Value = held.Value
+				component.setRefPath(documentPath)
+			}
 		} else {
 			var resolved ResponseRef
 			doc, componentPath, err := loader.resolveComponent(doc, ref, documentPath, &resolved)
@@ -1021,12 +1069,24 @@ func (loader *Loader) resolveSchemaRef(doc *T, component *SchemaRef, documentPat
 		}
 		loader.visitRef(ref)
 		if isSingleRefElement(ref) {
-			var schema Schema
-			if documentPath, err = loader.loadSingleElementFromURI(ref, documentPath, &schema); err != nil {
+			// the file holds the object itself or, one more link of the chain, a reference to it
+			var held SchemaRef
+			if documentPath, err = loader.loadSingleElementFromURI(ref, documentPath, &held); err != nil {
 				return err
 			}
-			component.Value = &schema
-			component.setRefPath(documentPath)
+			if held.Ref != "" {
+				if err = loader.resolveSchemaRef(doc, &held, documentPath, visited); err != nil {
+					return err
+				}
+				component.Value = held.Value
+				component.setRefPath(held.RefPath())
+			} else {
+				if held.Value == nil {
+					held.Value = &Schema{}
+				}
+				component.Value = held.Value
+				component.setRefPath(documentPath)
+			}
 		} else {
 			var resolved SchemaRef
 			doc, componentPath, err := loader.resolveComponent(doc, ref, documentPath, &resolved)
@@ -1112,12 +1172,24 @@ func (loader *Loader) resolveSecuritySchemeRef(doc *T, component *SecurityScheme
 		}
 		loader.visitRef(ref)
 		if isSingleRefElement(ref) {
-			var scheme SecurityScheme
-			if documentPath, err = loader.loadSingleElementFromURI(ref, documentPath, &scheme); err != nil {
+			// the file holds the object itself or, one more link of the chain, a reference to it
+			var held SecuritySchemeRef
+			if documentPath, err = loader.loadSingleElementFromURI(ref, documentPath, &held); err != nil {
 				return err
 			}
-			component.Value = &scheme
-			component.setRefPath(documentPath)
+			if held.Ref != "" {
+				if err = loader.resolveSecuritySchemeRef(doc, &held, documentPath); err != nil {
+					return err
+				}
+				component.Value = held.Value
+				component.setRefPath(held.RefPath())
+			} else {
+				if held.Value == nil {
+					held.Value = &SecurityScheme{}
+				}
+				component.Value = held.Value
+				component.setRefPath(documentPath)
+			}
 		} else {
 			var resolved SecuritySchemeRef
 			doc, componentPath, err := loader.resolveComponent(doc, ref, documentPath, &resolved)
@@ -1157,12 +1229,24 @@ func (loader *Loader) resolveExampleRef(doc *T, component *ExampleRef, documentP
 		}
 		loader.visitRef(ref)
 		if isSingleRefElement(ref) {
-			var example Example
-			if documentPath, err = loader.loadSingleElementFromURI(ref, documentPath, &example); err != nil {
+			// the file holds the object itself or, one more link of the chain, a reference to it
+			var held ExampleRef
+			if documentPath, err = loader.loadSingleElementFromURI(ref, documentPath, &held); err != nil {
 				return err
 			}
-			component.Value = &example
-			component.setRefPath(documentPath)
+			if held.Ref != "" {
+				if err = loader.resolveExampleRef(doc, &held, documentPath); err != nil {
+					return err
+				}
+				component.Value = held.Value
+				component.setRefPath(held.RefPath())
+			} else {
+				if held.Value == nil {
+					held.Value = &Example{}
+				}
+				component.Value = held.Value
+				component.setRefPath(documentPath)
+			}
 		} else {
 			var resolved ExampleRef
 			doc, componentPath, err := loader.resolveComponent(doc, ref, documentPath, &resolved)
@@ -1206,12 +1290,24 @@ func (loader *Loader) resolveCallbackRef(doc *T, component *CallbackRef, documen
 		}
 		loader.visitRef(ref)
 		if isSingleRefElement(ref) {
-			var resolved Callback
-			if documentPath, err = loader.loadSingleElementFromURI(ref, documentPath, &resolved); err != nil {
+			// the file holds the object itself or, one more link of the chain, a reference to it
+			var held CallbackRef
+			if documentPath, err = loader.loadSingleElementFromURI(ref, documentPath, &held); err != nil {
 				return err
 			}
-			component.Value = &resolved
-			component.setRefPath(documentPath)
+			if held.Ref != "" {
+				if err = loader.resolveCallbackRef(doc, &held, documentPath); err != nil {
+					return err
+				}
+				component.Value = held.Value
+				component.setRefPath(held.RefPath())
+			} else {
+				if held.Value == nil {
+					held.Value = &Callback{}
+				}
+				component.Value = held.Value
+				component.setRefPath(documentPath)
+			}
 		} else {
 			var resolved CallbackRef
 			doc, componentPath, err := loader.resolveComponent(doc, ref, documentPath, &resolved)
@@ -1267,12 +1363,24 @@ func (loader *Loader) resolveLinkRef(doc *T, component *LinkRef, documentPath *u
 		}
 		loader.visitRef(ref)
 		if isSingleRefElement(ref) {
-			var link Link
-			if documentPath, err = loader.loadSingleElementFromURI(ref, documentPath, &link); err != nil {
+			// the file holds the object itself or, one more link of the chain, a reference to it
+			var held LinkRef
+			if documentPath, err = loader.loadSingleElementFromURI(ref, documentPath, &held); err != nil {
 				return err
 			}
-			component.Value = &link
-			component.setRefPath(documentPath)
+			if held.Ref != "" {
+				if err = loader.resolveLinkRef(doc, &held, documentPath); err != nil {
+					return err
+				}
+				component.Value = held.Value
+				component.setRefPath(held.RefPath())
+			} else {
+				if held.Value == nil {
+					held.Value = &Link{}
+				}
+				component.Value = held.Value
+				component.setRefPath(documentPath)
+			}
 		} else {
 			var resolved LinkRef
 			doc, componentPath, err := loader.resolveComponent(doc, ref, documentPath, &resolved)
@@ -1318,6 +1426,12 @@ func (loader *Loader) resolvePathItemRef(doc *T, pathItem *PathItem, documentPat
 			var p PathItem
 			if documentPath, err = loader.loadSingleElementFromURI(ref, documentPath, &p); err != nil {
 				return
+			}
+			if p.Ref != "" && p.isEmpty() {
+				// the file holds a reference to the path item: one more link of the chain
+				if err = loader.resolvePathItemRef(doc, &p, documentPath); err != nil {
+					return
+				}
 			}
 			*pathItem = p
 		} else {
